@@ -432,6 +432,9 @@ pub const SESSION_FORMS: &[&str] = &[
     "(u)",
     // a begin at the outermost level is spliced: its definitions are top-level definitions
     "(begin (define g 5) (define (f) (list 'spliced g)) (f))",
+    // an assignment inside a procedure body to a global that no earlier form has mentioned (constant right-hand
+    // side): legal as long as the global is defined before the procedure is called
+    "(define (f) (set! g 8))",
 ];
 const REDEFINES_BUILTIN: usize = 15;
 
